@@ -226,7 +226,18 @@ def mon (st : St) (op : List String) (outs : List (List String)) : St × List St
       [s!"PROP delivery runs ahead of the contracted rate by {lead} GHs, more than one cycle's worth ({cycleWorth}): delivered {delivered}, due {due} after {el} s"] else []
     let c2 := if st6.enough ∧ el > st6.cycle ∧ lag > cycleWorth + slack then
       [s!"PROP delivery falls behind the contracted rate by {lag} GHs, more than one cycle's worth ({cycleWorth}) although enough hashrate is connected: delivered {delivered}, due {due} after {el} s"] else []
-    (st6, logComplaints ++ booksC ++ clockC ++ replC ++ oblC ++ knownC ++ c1 ++ c2)
+    -- C20: the mean hashrate the contract reports is the work that reached its destination over the time since the
+    -- fulfilment started (whole seconds; one second of the fleet and one part in twenty of slack)
+    let estC := match (outs.find? (·.head? = some "est")) with
+      | some toks =>
+        let mean := parseInt (kvGet toks "mean")
+        -- the counter is started when the allocation begins, ten seconds after the purchase
+        let elm := el - 10
+        if elm ≥ 20 ∧ !ended ∧ (mean * elm - delivered).natAbs > (delivered / 20).natAbs + (st6.peak * 3).natAbs then
+          [s!"C20 the contract reports a mean of {mean} GH/s {elm} s after it started delivering, but {delivered} GHs reached its destination: {delivered / elm} GH/s"]
+        else []
+      | none => []
+    (st6, logComplaints ++ booksC ++ clockC ++ replC ++ oblC ++ knownC ++ c1 ++ c2 ++ estC)
 
 def monitor : Monitor := { σ := St, init := {}, step := mon }
 
